@@ -412,6 +412,21 @@ INSERT INTO z SELECT i, i%%13, CASE i%%3 WHEN 0 THEN 'k'||(i%%5) WHEN 1 THEN 'K'
 			`INSERT INTO g3 (a, c) VALUES (1, 'c1'), (2, 'c2')`,
 			`CREATE TABLE g5 (k PRIMARY KEY, b TEXT AS (9) VIRTUAL, c) WITHOUT ROWID`,
 			`INSERT INTO g5 (k, c) VALUES ('x', 'c1'), ('y', 'c2')`,
+			// the same next to every kind of table constraint (whatever looks at the definition as a whole must get to the columns)
+			`CREATE TABLE gp (x PRIMARY KEY)`,
+			`INSERT INTO gp VALUES (1), (2)`,
+			`CREATE TABLE g6 (a, b AS (5), c, FOREIGN KEY (a) REFERENCES gp (x))`,
+			`INSERT INTO g6 (a, c) VALUES (1, 'c1'), (2, 'c2')`,
+			`CREATE TABLE g7 (a, b AS (5), c, CHECK (a > 0))`,
+			`INSERT INTO g7 (a, c) VALUES (1, 'c1'), (2, 'c2')`,
+			`CREATE TABLE g8 (a, b AS (5), c, UNIQUE (a))`,
+			`INSERT INTO g8 (a, c) VALUES (1, 'c1'), (2, 'c2')`,
+			`CREATE TABLE g9 (a, b AS (5), c, PRIMARY KEY (a))`,
+			`INSERT INTO g9 (a, c) VALUES (1, 'c1'), (2, 'c2')`,
+			`CREATE TABLE g10 (a, b AS (5), c, CONSTRAINT fk FOREIGN KEY (a) REFERENCES gp (x) ON DELETE CASCADE, UNIQUE (c))`,
+			`INSERT INTO g10 (a, c) VALUES (1, 'c1'), (2, 'c2')`,
+			`CREATE TABLE g11 (a REFERENCES gp (x), b AS (5), c)`,
+			`INSERT INTO g11 (a, c) VALUES (1, 'c1'), (2, 'c2')`,
 		}},
 		{"minimal-cells", func() []string {
 			// records without a body (NULL, the constants 0 and 1, '' and x''): cells of 4 bytes, more cells per page than
